@@ -381,6 +381,7 @@ def command_line_undef_scenarios(ctx, workdir):
     from codebasin import config
     acc = ctx.acc
     r = cprog.render(UNDEF_PROGRAM)
+    workdir = ctx.subdir("undef")        # a code base of its own (finder.find parses every file it finds)
     path = os.path.join(workdir, "undef.c")
     with open(path, "w") as f:
         f.write(r.text)
